@@ -23,7 +23,7 @@ EXPLANATION = (
     "lower view scrolls over); (5) thumb geometry is computed only from queries made with the size the wrapped widget is drawn at (ow_size), never the ScrollBar's own size."
     " Added after seed round 3: every return of Scrollable.render comes after _adjust_trim_top() (the position reported is 0 when the content fits); a constant top part is stored only under a test that the thumb leaves room; (8) FOCUS-FWD on the scrolling protocol (ListBox.get_scrollpos -> calculate_visible); (9) ScrollBar remembers for keypress()/mouse_event() exactly the size handed to the wrapped widget's render()."
     ' Round 4: (10) ListBox.get_first_visible_pos returns a count obtained by walking get_prev(), never a walker position, and positions are never tested for being integers; (11) Scrollable.render returns the untrimmed canvas only when it fits in both directions.'
-    ' Round-4 triage: (3, extended) the relative-mode total is raised to position + visible amount before the maximum position is derived from it; (12) INV-RENDER - when rendering moves / clamps the position for the size at hand, the canvases cached for other sizes are dropped (shared with C06.9).'
+    ' Round-4 triage: (3, extended) the relative-mode total is raised to position + visible amount before the maximum position is derived from it; (12) INV-RENDER - when rendering moves / clamps the position for the size at hand, the canvases cached for other sizes are dropped (shared with C06.9). Round 5: (13) the one-shot scroll request is reset on every path through _adjust_trim_top.'
 )
 NOT_DECIDED = "0 <= position <= total - height after every history as a value statement, thumb monotonicity, rounding of the thumb, wheel handling, relative-scroll estimates."
 ASSUMPTIONS = []
@@ -478,6 +478,32 @@ def rule_query_size(ctx: Ctx) -> RuleResult:
     return rr
 
 
+def rule_one_shot_consumed(ctx: Ctx) -> RuleResult:
+    """A scrolling key does not move the view itself: keypress() leaves a one-shot request in `_scroll_action` and
+    the next render consumes it in _adjust_trim_top().  'Consumes' has to hold on *every* path through that
+    function - also on the one where the content fits and the position is simply reset - otherwise the request
+    survives and is applied to some later rendering (after a resize that makes the content overflow the view starts
+    at row 1 or at the end instead of row 0)."""
+    p = ctx.p
+    rr = RuleResult("PASS", "C20.13", "Scrollable._adjust_trim_top resets the one-shot scroll request on every path", floor=1)
+    fi = p.func(f"{S}._adjust_trim_top")
+    cfg = cfg_of(fi)
+    kp = p.func(f"{S}.keypress")
+    reqs = {t.attr for n in kp.own_nodes() if isinstance(n, ast.Assign) for t in n.targets if isinstance(t, ast.Attribute) and isinstance(t.value, ast.Name) and t.value.id == kp.self_name and isinstance(n.value, (ast.Name, ast.Attribute, ast.Constant)) and "action" in t.attr}
+    if not reqs:
+        raise AnalysisError("Scrollable.keypress: the attribute holding the scroll request was not found")
+    for attr in sorted(reqs):
+        resets = [n for n in cfg.nodes if isinstance(n.ast, ast.Assign) and any(isinstance(t, ast.Attribute) and t.attr == attr for t in n.ast.targets) and isinstance(n.ast.value, ast.Constant) and n.ast.value.value is None]
+        r = cfg.reachable([cfg.entry], avoid=resets, include_start=True, labels=("n", "T", "F"))
+        ok = bool(resets) and cfg.exit not in r
+        rr.inst(f"{attr} consumed", True, {"request": attr, "resets": [norm(n.stmt, 40) for n in resets], "on_every_path": ok})
+        if not ok:
+            path = cfg.witness_path(cfg.entry, [cfg.exit], avoid=resets, labels=("n", "T", "F"))
+            via = next((norm(n.ast, 40) for n in reversed(path or []) if n.kind == "test"), "?")
+            rr.add(finding("PASS", fi, fi.node, f"a path through _adjust_trim_top (via `{via}`) ends without `self.{attr} = None`: a scrolling key pressed while the whole content is visible is not discarded by that rendering and is applied to a later one - after a resize the view starts away from row 0", construct=f"{attr} not consumed on every path"))
+    return rr
+
+
 def run(ctx: Ctx):
     p = ctx.p
     return [
@@ -492,6 +518,7 @@ def run(ctx: Ctx):
         rule_size_memo(ctx),
         rule_positions_opaque(ctx),
         rule_fit_test(ctx),
+        rule_one_shot_consumed(ctx),
         fresh.run_fresh(p, "C20.7", ["urwid.canvas"], floor=30),
         inv.run_inv(p, "C20.6", floor_classes=2, floor_nontrivial=1, exceptions=INV_EXCEPTIONS, only_classes={"Scrollable", "ScrollBar"}),
         fwd.run_fwd(p, "C20.8", ("urwid.widget.scrollable", "urwid.widget.listbox"), floor=20, description="the scrolling protocol (get_scrollpos, rows_max, get_first_visible_pos, ...) and the renderers pass the focus flag on: the position is computed for the rendering that is shown"),
@@ -500,6 +527,7 @@ def run(ctx: Ctx):
 
 _F = "urwid/widget/scrollable.py"
 MUTANTS = [
+    Mut("scroll-request-survives-fitting-render", _F, "Scrollable._adjust_trim_top", "        action = self._scroll_action\n        self._scroll_action = None\n\n        _maxcol, maxrow = size", "        _maxcol, maxrow = size", "PASS|widget.scrollable.Scrollable._adjust_trim_top", also=[("        def ensure_bounds(new_trim_top: int) -> int:", "        action = self._scroll_action\n        self._scroll_action = None\n\n        def ensure_bounds(new_trim_top: int) -> int:")]),
     Mut("scrollable-position-moved-without-invalidate", "urwid/widget/scrollable.py", "Scrollable._adjust_trim_top", "        if self._trim_top != old_trim_top:\n            # canvases cached for other sizes show the old position\n            self._invalidate()\n", "", "INV-RENDER|widget.scrollable.Scrollable._adjust_trim_top"),
     Mut("scrollbar-estimate-not-raised-to-pos-plus-visible", "urwid/widget/scrollable.py", "ScrollBar.render", "ow_len = max(ow_len, pos + visible_amount)", "ow_len = max(ow_len, visible_amount, pos)", "PAIR|widget.scrollable.ScrollBar.render|posmax"),
     Mut("twin-scrollbar-estimate-respelled", "urwid/widget/scrollable.py", "ScrollBar.render", "ow_len = max(ow_len, pos + visible_amount)", "ow_len = max(visible_amount + pos, ow_len)", twin=True),
